@@ -28,6 +28,14 @@ def run(ctx) -> None:
     ctx.guard("C08.formula", positions_attr)
     ctx.guard("C08.device-private", device_private)
     ctx.guard("C08.trough-predicate", trough_predicate)
+    # each device class is wired to its own numbering, and the EVO script commands are built for the labware's own grid
+    from . import c01, c13
+    from .common import concrete_devices
+
+    for dev in concrete_devices(ctx):
+        ctx.reuse("C08.device-hook", c01.numbering_hook, dev)
+    for name, track in (("evo_aspirate", "remove"), ("evo_dispense", "add")):
+        ctx.reuse("C08.evo-grid", c13.same_args, name, track)
     ctx.guard("C08.regex", regex_agreement)
     ctx.guard("C08.id-template", id_templates)
     ctx.guard("C08.id-template", grid_construction)
@@ -587,6 +595,9 @@ def unknown_well(ctx, rule: str = "C08.unknown-well") -> None:
     for dev in concrete_devices(ctx):
         for meth, track, kind_ in (("aspirate", "remove", "A"), ("dispense", "add", "D")):
             ctx.reuse(rule, c01.pair_ad, dev, meth, track, kind_)
+    from . import c13
+
+    ctx.reuse(rule, c13.selection_array)
     for kind in ("add", "remove"):
         f = ctx.prog.require_func(f"Labware.{kind}", rule)
         fv = ctx.fv(f)
